@@ -365,55 +365,90 @@ def sentinel_rules(R, lib):
             f = fs[0]
             if not f.params or f.params[0][1] != 'int':
                 continue
-            p0 = f.params[0][0]
             kind = 'Days' if name.endswith('Days') else 'Seconds'
             sents = {lib.const(SENTINELS[kind])}
             if cls.endswith('LocalTime'):
                 sents = {lib.const('ace_time::LocalTime::kInvalidSeconds')}
 
-            class FR(Rule):
-                def initial(self_):
-                    return ['untested']
+            top = f
 
-                def refine(self_, cond, st, truth):
-                    c = cond
-                    while c.k == 'cast':
-                        c = c.a[2]
-                    if c.k == 'bin' and c.a[0] in ('==', '!='):
-                        for x, y in ((c.a[1], c.a[2]), (c.a[2], c.a[1])):
-                            xv = x
-                            while xv.k == 'cast':
-                                xv = xv.a[2]
-                            yv = y
-                            while yv.k == 'cast':
-                                yv = yv.a[2]
-                            val = lib.global_value(yv.a[0]) if yv.k == 'var' else (yv.a[0] if yv.k == 'const' else None)
-                            if path_of(xv) == p0 and val in sents:
-                                is_sentinel = (c.a[0] == '==') == truth
-                                return 'sentinel' if is_sentinel else 'valid'
-                    return st
+            def factory_rule(top, f, p0, depth):
+                # R3-for on function f for its parameter p0 (the value the factory `top` was given).  A function that does nothing
+                # with the value but hand it on unchanged - to another factory, a constructor, a helper - is decided in the function
+                # that receives it (three levels at most).
+                forwards = []
+                class FR(Rule):
+                    def initial(self_):
+                        return ['untested']
 
-                def event(self_, e, st, tr):
-                    if e.k == 'bin' and e.a[0] in ('+', '-', '*', '/', '%') and st != 'valid':
-                        if any(path_of(x) == p0 for x in walk_expr(e) if x.k == 'var'):
-                            c = f.name
-                            R.instance('R3-for', c, e.loc, 'arithmetic on the argument')
-                            R.violation('R3-for', c, e.loc, 'arithmetic %s on the argument happens on a path where it may still be the error sentinel' % show(e)[:80], detail=list(tr))
-                    return st
+                    def refine(self_, cond, st, truth):
+                        c = cond
+                        while c.k == 'cast':
+                            c = c.a[2]
+                        if c.k == 'bin' and c.a[0] in ('==', '!='):
+                            for x, y in ((c.a[1], c.a[2]), (c.a[2], c.a[1])):
+                                xv = x
+                                while xv.k == 'cast':
+                                    xv = xv.a[2]
+                                yv = y
+                                while yv.k == 'cast':
+                                    yv = yv.a[2]
+                                val = lib.global_value(yv.a[0]) if yv.k == 'var' else (yv.a[0] if yv.k == 'const' else None)
+                                if path_of(xv) == p0 and val in sents:
+                                    is_sentinel = (c.a[0] == '==') == truth
+                                    return 'sentinel' if is_sentinel else 'valid'
+                        return st
 
-                def assign(self_, s, st, tr):
-                    if s.k == 'assign' and s.a[2] != '=' and path_of(s.a[0]) == p0 and st != 'valid':
-                        R.instance('R3-for', f.name, s.loc)
-                        R.violation('R3-for', f.name, s.loc, 'the argument is modified while it may still be the error sentinel', detail=list(tr))
-                    return st
+                    def event(self_, e, st, tr):
+                        if e.k in ('call', 'init', 'delegate') and st == 'untested':
+                            args = e.a[2] if e.k == 'call' else e.a[1]
+                            for i_, a_ in enumerate(args):
+                                while a_.k == 'cast':
+                                    a_ = a_.a[2]
+                                if a_.k == 'var' and path_of(a_) == p0:
+                                    forwards.append((e, i_))     # handed on unchanged: decided in the function that receives it
+                        if e.k == 'bin' and e.a[0] in ('+', '-', '*', '/', '%') and st != 'valid':
+                            if any(path_of(x) == p0 for x in walk_expr(e) if x.k == 'var'):
+                                c = top.name
+                                R.instance('R3-for', c, e.loc, 'arithmetic on the argument')
+                                R.violation('R3-for', c, e.loc, 'arithmetic %s on the argument happens on a path where it may still be the error sentinel' % show(e)[:80], detail=list(tr))
+                        return st
 
-                def at_exit(self_, kind_, stmt, st, tr):
-                    R.instance('R3-for', f.name, stmt.loc if stmt is not None else f.loc, 'exit on %s path' % st)
-            Engine(FR()).run(f.body)
-            tested = any(True for s in walk_stmts(f.body) for e0 in stmt_exprs(s) for e in walk_expr(e0)
-                         if e.k == 'bin' and e.a[0] in ('==', '!=') and any(path_of(x) == p0 for x in walk_expr(e) if x.k == 'var'))
-            if not tested:
-                R.violation('R3-for', f.name, f.loc, 'the factory never compares its argument with the error sentinel')
+                    def assign(self_, s, st, tr):
+                        if s.k == 'assign' and s.a[2] != '=' and path_of(s.a[0]) == p0 and st != 'valid':
+                            R.instance('R3-for', top.name, s.loc)
+                            R.violation('R3-for', top.name, s.loc, 'the argument is modified while it may still be the error sentinel', detail=list(tr))
+                        return st
+
+                    def at_exit(self_, kind_, stmt, st, tr):
+                        if depth == 0:
+                            R.instance('R3-for', top.name, stmt.loc if stmt is not None else f.loc, 'exit on %s path' % st)
+                Engine(FR()).run(f.body)
+                tested = any(True for s in walk_stmts(f.body) for e0 in stmt_exprs(s) for e in walk_expr(e0)
+                             if e.k == 'bin' and e.a[0] in ('==', '!=') and any(path_of(x) == p0 for x in walk_expr(e) if x.k == 'var'))
+                if tested:
+                    return
+                # not tested here: where does the value go?
+                followed = False
+                for e, i_ in forwards:
+                    if depth >= 3:
+                        break
+                    if e.k == 'call':
+                        cands = [g for g in lib.fns(e.a[0]) if len(g.params) == len(e.a[2])]
+                    else:
+                        q_ = (e.a[0] or '').replace('const ', '').strip()
+                        cands = [g for g in lib.fns(q_ + '::' + q_.split('::')[-1]) if len(g.params) == len(e.a[1])] if q_ else []
+                        if not cands and '::' in f.name:
+                            q2 = f.name.rsplit('::', 1)[0]
+                            cands = [g for g in lib.fns(q2 + '::' + q2.split('::')[-1]) if len(g.params) == len(e.a[1])]
+                    cands = [g for g in cands if i_ < len(g.params) and (g.params[i_][1] or '').replace('const ', '').strip() == 'int' and g is not f]
+                    for g in cands[:2]:
+                        followed = True
+                        factory_rule(top, g, g.params[i_][0], depth + 1)
+                if not followed:
+                    R.violation('R3-for', top.name, f.loc, 'the factory never compares its argument with the error sentinel'
+                                + ('' if depth == 0 else ' (followed into %s)' % f.name))
+            factory_rule(f, f, f.params[0][0], 0)
     # string wrappers, interpreted (E-SEQ, typed): every prefix of a well-formed text that is shorter than the text is
     # refused with an error value, and no prefix - nor the full text - makes the parser read beyond the terminator
     from .aeval import Ref as _Ref, Text as _Text
